@@ -884,6 +884,8 @@ def adapt_typehints(
             adapt_kwargs.pop("prev_val")
             if prev_val is None:
                 prev_val = []
+            elif isinstance(prev_val, tuple):
+                prev_val = list(prev_val)
             elif not isinstance(prev_val, list):
                 try:
                     prev_val = [adapt_typehints(prev_val, subtypehints[0], **adapt_kwargs)]
